@@ -289,6 +289,8 @@ class Interp(object):
             if m is not None:
                 n = self.call(Closure(m, m.node, None, m.module, v, v.cls), [], {})
                 return self.truth(n)
+            if '__base_list__' in v.attrs:
+                return bool(v.attrs['__base_list__'])
             return True
         if isinstance(v, (PolyT, Arr)):
             raise Undecidable('truth of array/poly')
@@ -455,6 +457,8 @@ class Interp(object):
             m = container.cls.methods.get('__contains__')
             if m is not None:
                 return self.call(Closure(m, m.node, None, m.module, container, container.cls), [item], {})
+            if '__base_list__' in container.attrs:
+                return self._contains(container.attrs['__base_list__'], item)
             raise Undecidable('membership in object')
         if isinstance(container, str):
             if isinstance(item, str):
@@ -1042,6 +1046,8 @@ class Interp(object):
             mixin = bm.mixin_method(self, o, name)
             if mixin is not None:
                 return mixin
+            if '__base_list__' in o.attrs and hasattr(list, name):
+                return BoundBuiltin(o.attrs['__base_list__'], name)
             if name == '__class__':
                 return ClassRef(cls)
             raise PyRaise('AttributeError', '%s.%s' % (cls.name, name))
@@ -1075,6 +1081,8 @@ class Interp(object):
     def subscript(self, c, idx):
         if isinstance(c, Obj):
             return self.call_method(c, '__getitem__', idx)
+        if isinstance(c, Opaque) and c.what == 'namedtuple':
+            return bm.subscript(self, tuple(c.attrs.values()), idx)
         return bm.subscript(self, c, idx)
 
     def iterate(self, v):
@@ -1097,12 +1105,16 @@ class Interp(object):
             return [Arr(r) if isinstance(r, list) else r for r in v.d]
         if isinstance(v, PolyT):
             return list(v.c)
+        if isinstance(v, Opaque) and v.what == 'namedtuple':
+            return list(v.attrs.values())     # fields in declaration order
         if isinstance(v, Obj):
             if '__iter__' in v.cls.methods:
                 return self.iterate(self.call_method(v, '__iter__'))
             if '__getitem__' in v.cls.methods and '__len__' in v.cls.methods:
                 n = as_int(self.call_method(v, '__len__'))
                 return [self.call_method(v, '__getitem__', i) for i in range(n)]
+            if '__base_list__' in v.attrs:
+                return list(v.attrs['__base_list__'])
         raise Undecidable('iteration over %r' % (v,))
 
     # ------------------------------------------------------------------ calls
@@ -1144,11 +1156,14 @@ class Interp(object):
             if r is not NotImplemented:
                 return r
         o = Obj(info)
+        if 'list' in info.bases:
+            # subclass of the builtin list: the inherited storage; methods the class does not define act on it
+            o.attrs['__base_list__'] = []
         init = info.methods.get('__init__')
         if init is not None:
             self.call_closure(Closure(init, init.node, None, init.module, o, info), args, kwargs)
-        elif any(b in ('list',) for b in info.bases):
-            raise Undecidable('instantiating list subclass')
+        elif 'list' in info.bases:
+            o.attrs['__base_list__'].extend(self.iterate(args[0]) if args else [])
         return o
 
     def call_closure(self, f, args, kwargs):
